@@ -472,9 +472,9 @@ func Domain(c *core.Ctx) ([]byte, map[string]int, int) {
 // selfDomain: String(x) cases on which TLC also evaluates the independent
 // formulation NumText!ShortestDigits and asserts agreement with NumFmt!ShortDigits.
 func selfDomain(c *core.Ctx) ([]byte, int) {
-	n := 40
+	n := 0 // the independent formulation costs 1-5 s per extreme double: thorough tier only
 	if c.Thorough() {
-		n = 400
+		n = 320
 	}
 	d := &dom{rng: rand.New(rand.NewSource(c.Seed*104729 + 5)), seen: map[string]bool{}, byOp: map[string]int{}}
 	for i := 0; i < n; i++ {
@@ -509,14 +509,17 @@ var Spec = &gen.Spec{
 		domBytes, byOp, n := Domain(c)
 		c.Note("harness-supplied domain: %d cases %v", n, byOp)
 		selfBytes, selfN := selfDomain(c)
-		return []gen.RunCfg{
+		runs := []gen.RunCfg{
 			{Name: fmt.Sprintf("text->number: all strings of <= %d tokens, literal texts of <= %d characters, hand-chosen strings x radixes", maxLen, litLen),
 				Cfg: cfg(c, "text", maxLen, litLen), Opts: tlc.Opts{Files: map[string][]byte{"dom.ndjson": placeholder}}},
 			{Name: fmt.Sprintf("harness-chosen domain: %d cases (number->text on seeded doubles with arguments; text->number on random literals, ties, mutations)", n),
 				Cfg: cfg(c, "dom", maxLen, litLen), Opts: tlc.Opts{Files: map[string][]byte{"dom.ndjson": domBytes}}},
-			{Name: fmt.Sprintf("self-check: 9.8.1 digits of %d doubles by two formulations (NumFmt!ShortDigits = NumText!ShortestDigits)", selfN),
-				Cfg: cfg(c, "self", maxLen, litLen), Opts: tlc.Opts{Files: map[string][]byte{"dom.ndjson": selfBytes}}},
 		}
+		if selfN > 0 {
+			runs = append(runs, gen.RunCfg{Name: fmt.Sprintf("self-check: 9.8.1 digits of %d doubles by two formulations (NumFmt!ShortDigits = NumText!ShortestDigits)", selfN),
+				Cfg: cfg(c, "self", maxLen, litLen), Opts: tlc.Opts{Files: map[string][]byte{"dom.ndjson": selfBytes}}})
+		}
+		return runs
 	},
 	Assume: []string{
 		"text->number: exhaustive over the 13-token alphabet {0 1 9 . e E + - x a f space Infinity} up to the length bound; literals over {0 1 7 8 9 . e E x a f}; plus the strings of spec/C06Str.tla",
